@@ -68,6 +68,7 @@ struct Slot {
     // CAN
     std::deque<Frame> rx; uint64_t rxOverruns = 0; bool canOpen = false;
     int sendFail = 0;               // next n Send() calls fail (return -1)
+    int sendFailRet = -1;           // what a refused Send() returns: -1 (error) or 0 (nothing sent)
     int sendFailAfter = -1;         // >= 0: that many Send() calls succeed, the one after them fails (once)
     int readErr = 0;                // next n Read() calls return -1
     int readEmpty = 0;              // next n Read() calls return 0 although a frame waits
